@@ -52,19 +52,13 @@ def ob(name, entry, desc, defines=(), unwind=8, unwindset=(), timeout=600, mem_g
     return d
 
 def int_obs(N):
-    U = N + 2
-    us = []
     o = []
-    o.append(ob("int_N%d" % N, "harness_int",
-                "strtoint/strtoint_clipped == reference integer (strtol syntax, whole string, saturated to int, -1 rejected; clipped to "
-                "symbolic [min,max]) for every string <= %d bytes in an exact object (values that fit an int)" % N,
-                ["C39_N=%d" % N, "KF_EXCLUDE_INT_WRAP", "C39_FRONT"], unwind=U, unwindset=us))
-    o.append(ob("int_N%d_kf_wrap" % N, "harness_int",
-                "the same on exactly the KF-C39-int-wrap inputs (decimal value outside the range of int)",
-                ["C39_N=%d" % N, "KF_ONLY_INT_WRAP"], unwind=U, unwindset=us,
-                expect_fail=["C39: strtoint value differs", "C39: strtoint_clipped value differs", "C39: strtoint accepted", "C39: strtoint_clipped accepted",
-                             "arithmetic overflow on signed type conversion"],
-                known_finding="KF-C39-int-wrap"))
+    what = ("strtoint / strtoint_clipped(symbolic [min,max]) == reference (the value strtol(base 10) reads from the WHOLE text, saturated to int, "
+            "-1 rejected, then clipped) for every text <= %d bytes in an exact object and every (value, end pointer) strtol can report" % N)
+    o.append(ob("int_N%d" % N, "harness_int", what + " (values that fit an int)", ["C39_N=%d" % N, "KF_EXCLUDE_INT_WRAP"], unwind=N + 2))
+    o.append(ob("int_N%d_kf_wrap" % N, "harness_int", "the same on exactly the KF-C39-int-wrap inputs (value outside the range of int)",
+                ["C39_N=%d" % N, "KF_ONLY_INT_WRAP"], unwind=N + 2,
+                expect_fail=["C39: strtoint/strtoint_clipped value differs", "C39: strtoint/strtoint_clipped accepted"], known_finding="KF-C39-int-wrap"))
     return o
 
 def time_obs():
@@ -138,7 +132,7 @@ def obligations(tier):
     obs = int_obs(12) + time_obs() + opt_obs(tier) + line_obs(tier)
     if tier != "quick":
         for o in list(obs):
-            if o["name"].startswith(("int_N12", "timeval", "resolv_line_N", "hosts_line_N")) and "kf" not in o["name"]:
+            if o["name"].startswith(("int_N", "timeval", "resolv_line_N", "hosts_line_N")) and "kf" not in o["name"]:
                 t = dict(o); t["name"] = o["name"] + "_ndebug"; t["ndebug"] = True
                 t["desc"] = o["desc"] + " [NDEBUG build]"
                 obs.append(t)
